@@ -511,8 +511,10 @@ class AccumulatedDerivative:
                                                            [1 / self.f_value * x for x in self._fp_values])),
                                          f_value=np.log(self.f_value))
         else:
-            return AccumulatedDerivative(elements=dict(zip(self._keys, [(f(self.f_value + h, **kwargs) -
-                                                                         f(self.f_value - h, **kwargs)) / (2 * h) * x
+            # difference quotient in double precision whatever the dtype of the steady-state value (a float32 value loses the quotient's digits)
+            x0 = float(self.f_value)
+            return AccumulatedDerivative(elements=dict(zip(self._keys, [(f(x0 + h, **kwargs) -
+                                                                         f(x0 - h, **kwargs)) / (2 * h) * x
                                                                         for x in self._fp_values])),
                                          f_value=f(self.f_value, **kwargs))
 
